@@ -58,6 +58,9 @@ type Config struct {
 	IdleLimit   int   // idle jumps without harness progress => "no-progress" verdict
 	TraceRing   int   // keep the last N events for the human-readable trace
 	StartNanos  int64 // initial simulated time offset (ns since epoch)
+	Record      bool    // record every scheduling choice (index into the candidate list)
+	Replay      []int32 // follow these recorded choices instead of the scheduler flavour; beyond its end: 0 = keep running the current task / first candidate
+	UseReplay   bool
 }
 
 type taskState uint8
@@ -123,6 +126,8 @@ type Result struct {
 	Faults    map[string]int
 	Trace     []Event
 	NTasks    int
+	Choices   []int32 // recorded scheduling choices (Config.Record)
+	Diverged  int     // replayed choices that were not admissible any more
 }
 
 type Kernel struct {
@@ -158,6 +163,9 @@ type Kernel struct {
 	nextID    int
 	doneCount int
 	pruned    int
+	choices   []int32
+	replayPos int
+	diverged  int
 }
 
 // K is the kernel of the run in progress; nil outside a simulation, in which
@@ -233,6 +241,8 @@ func Run(cfg Config, root func()) *Result {
 	r.Probes = k.probes.toMap()
 	r.Faults = k.faults.toMap()
 	r.NTasks = k.nextID
+	r.Choices = k.choices
+	r.Diverged = k.diverged
 	r.Tasks = k.taskInfos()
 	if k.ring != nil {
 		n := len(k.ring)
@@ -466,6 +476,36 @@ func (k *Kernel) choose(cand []*Task, curFirst bool) *Task {
 	if len(cand) == 1 {
 		return cand[0]
 	}
+	if k.cfg.UseReplay {
+		// replay (and schedule minimisation): the recorded index into the candidate list
+		i := 0
+		if k.replayPos < len(k.cfg.Replay) {
+			i = int(k.cfg.Replay[k.replayPos])
+		}
+		k.replayPos++
+		if i >= len(cand) || i < 0 {
+			k.diverged++
+			i = 0
+		}
+		if k.cfg.Record {
+			k.choices = append(k.choices, int32(i))
+		}
+		return cand[i]
+	}
+	t := k.chooseByFlavour(cand, curFirst)
+	if k.cfg.Record {
+		for i, c := range cand {
+			if c == t {
+				k.choices = append(k.choices, int32(i))
+				break
+			}
+		}
+	}
+	return t
+}
+
+//go:norace
+func (k *Kernel) chooseByFlavour(cand []*Task, curFirst bool) *Task {
 	switch k.cfg.Sched {
 	case SchedSticky:
 		if curFirst {
